@@ -17,3 +17,4 @@ CONSTANTS
   MaxAttempts = 3
 INVARIANTS TypeOK WindowClosedForm SameOnEveryMember NumberedConsecutively NonOverlapping OnlyCurrentWindow
   ParamsExact SpawnedAreBoundaries LimitRespected ResultWindow ConstantsSane
+CONSTRAINT FewPendingWaiters
